@@ -8,9 +8,12 @@ import (
 )
 
 type harness struct {
-	name string // pkgdir/FuncName
-	fn   *ssa.Function
-	pkg  string
+	name  string // pkgdir.FuncName or pkgdir.FuncName#i
+	fn    *ssa.Function
+	pkg   string
+	param *ssa.Function // for VerifP_*: the companion _N function
+	arg   int
+	hasArg bool
 }
 
 // allHarnesses lists the functions named VerifH_* of the loaded hcl-lang packages.
@@ -21,8 +24,14 @@ func (w *world) allHarnesses() []harness {
 			continue
 		}
 		for name, m := range p.Members {
+			short := strings.TrimPrefix(strings.TrimPrefix(path, repoMod), "/")
 			if f, ok := m.(*ssa.Function); ok && strings.HasPrefix(name, "VerifH_") {
-				hs = append(hs, harness{name: strings.TrimPrefix(strings.TrimPrefix(path, repoMod), "/") + "." + name, fn: f, pkg: path})
+				hs = append(hs, harness{name: short + "." + name, fn: f, pkg: path})
+			}
+			if f, ok := m.(*ssa.Function); ok && strings.HasPrefix(name, "VerifP_") && !strings.HasSuffix(name, "_N") {
+				if nf := p.Func(name + "_N"); nf != nil {
+					hs = append(hs, harness{name: short + "." + name, fn: f, pkg: path, param: nf})
+				}
 			}
 		}
 	}
